@@ -13,6 +13,22 @@ class FilePressureProfile(ArrayPressureProfile):
                               )
         super().__init__(read_arr*to_Pa,reverse=reverse)
 
+        self._file_args = dict(filename=filename, usecols=usecols,
+                               skiprows=skiprows, units=units,
+                               delimiter=delimiter, reverse=reverse)
+
+    def write(self, output):
+        pressure = super().write(output)
+        # constructor arguments, so that the profile can be rebuilt from the
+        # same file (unset optional ones are left out and default on reload)
+        for key, value in self._file_args.items():
+            if value is None:
+                continue
+            if isinstance(value, str):
+                pressure.write_string(key, value)
+            else:
+                pressure.write_scalar(key, value)
+        return pressure
 
     @classmethod
     def input_keywords(self):
